@@ -37,6 +37,7 @@ def handle (line : String) : String :=
   | "parseg" :: rest => handleParseGate rest
   | "parsegv" :: rest => handleParseGate rest true
   | "parsep" :: rest => handleParseProg rest
+  | "progfacts" :: rest => handleProgFacts rest
   | "tok" :: rest => handleTok rest
   | "macro" :: rest => handleMacro rest
   | "withmacro" :: rest => handleWithMacro rest
